@@ -13,7 +13,7 @@ def run(tier, seed, ev):
     rc_k = kprop.run_k(PROP, tier, seed, ev, c03.K_INJ, c03.KH_LIST, jobs=1, mem_gb=30)
     with mirrun.mir_executor(PROP) as (ex, scr, mir_s):
         obs = c02.obligations(tier, ["C20"])
-        rc_m = mprop.run_m(PROP, tier, seed, ev, ex, obs, c02.REPLAY_INJ, "replay_api_wrappers")
+        rc_m = mprop.run_m(PROP, tier, seed, ev, ex, obs, c02.pick_inj, c02.pick_test)
         one = ("every record / end marker reaches its segment with a single write call", T.p_record_single_write, "record_single_write", "strace")
         snap = ("snapshot written, synced and renamed before any segment is pruned", T.p_snapshot_before_prune, "snapshot_before_prune", "strace")
         seal = ("the end marker is written only when a segment is left for good (before a new segment is opened)",
@@ -23,11 +23,13 @@ def run(tier, seed, ev):
         snc = ("a written snapshot holds the in-memory map and is labelled with the highest written version",
                T.make_p_snapshot_content(ex), "snapshot_content", "probe:replay_api_wrappers")
         tprop.SCEN_INJ.append(("src/lib.rs", "replay_api.rs", "verif_replay_api"))
-        rc_t = tprop.run_t(PROP, tier, seed, ev, ex, [("put.finish", [one, snap, seal, rec, snc]), ("remove", [one, snap, seal, rec, snc]), ("checkpoint", [snap, snc])],
+        trunc = ("a WAL segment that may hold records is never opened with truncate", T.make_p_wal_never_truncated(ex), "wal_never_truncated", "strace")
+        rc_t = tprop.run_t(PROP, tier, seed, ev, ex, [("put.finish", [one, snap, seal, rec, snc, trunc]), ("remove", [one, snap, seal, rec, snc, trunc]), ("checkpoint", [snap, snc, trunc])],
                            N=2, spill=True)
         c02.fill(ev, ex, mir_s, tier)
+        rc_t = tcommon.best(rc_t, tcommon.crash_image_run(PROP, tier, seed, ev, ex, "kill"))
         ev.functions += c03.KH_LIST[0].functions + tcommon.MIR_FUNCS[:6]
         ev.bounds["write_entry payload"] = c03.KH_LIST[0].bounds
-        ev.outside.append("wf(image) at every cut as ONE query over a symbolic disk is not built; it is assembled from: single-write records, "
-                          "write/sync/rename/prune order on every path, placement/monotonicity/no-reuse arithmetic, replay's view of any wf log")
+        ev.outside.append("wf(image) is decided per operation from an abstract well-formed pre-image (inductive step); record framing bytes and "
+                          "checksums are Engine K's leaf (C03 single-write harness, C10 reader)")
         return tcommon.best(rc_k, tcommon.best(rc_m, rc_t))
